@@ -29,6 +29,9 @@ TRUSTED = [
     "Python str/tuple ordering = code-point lexicographic = Lean `compare` on List Char / List (List Char)",
 ]
 ASSUMPTIONS = [
+    "objects of the domain come into being through the constructors, copy/deepcopy, or pickle (in-process or written by another interpreter with a "
+    "different string-hash seed); each of these must give objects interchangeable with freshly parsed ones — checked on the real code, not modelled in Lean "
+    "(the model's hashed value is a function of the compared attributes; a hash carried over from elsewhere breaks the correspondence and is reported)",
     "CPV pairs are both versioned or both unversioned: ordering a versioned against an unversioned CPV raises TypeError (checked: model and code agree on "
     "that, and on == being False), which is outside 'package versions'",
     "comparison operands are atoms/CPVs; atom.__cmp__ with a non-atom raises TypeError by design, atom == non-atom is False",
@@ -461,6 +464,162 @@ class _Key:
         return self.o < other.o
 
 
+# ---------------------------------------------------------------- other ways objects come into being
+# The property is about objects, not about the constructor: a CPV/atom obtained by copy, deepcopy, a pickle round trip in this process, or a
+# pickle written by *another interpreter* (spawned worker, earlier run: different str-hash seed) must be interchangeable with a freshly parsed one.
+
+CHILD = r"""
+import json, pickle, sys, operator
+from pkgcore.ebuild.atom import atom
+from pkgcore.ebuild import cpv
+import logging; logging.disable(logging.CRITICAL)
+def build(kind, text, negate):
+    if kind == "atom":
+        return atom(text, negate_vers=negate)
+    return cpv.VersionedCPV(text) if kind == "vcpv" else cpv.UnversionedCPV(text)
+def observe(a, b):
+    out = []
+    for f in (operator.eq, operator.ne, operator.lt, operator.le, operator.gt, operator.ge):
+        try:
+            out.append(bool(f(a, b)))
+        except Exception as e:
+            out.append(type(e).__name__)
+    return out + [hash(a) == hash(b), len({a, b}), (b in {a: 1})]
+# one request: objects pickled elsewhere to be judged *here*, and specs of objects to be built and pickled *here*
+req = pickle.loads(sys.stdin.buffer.read())
+res = []
+for obj, spec, pspec in req["rows"]:
+    fresh, partner = build(*spec), build(*pspec)
+    res.append([observe(obj, fresh), observe(fresh, obj), observe(obj, partner), observe(partner, obj), observe(fresh, partner), observe(partner, fresh)])
+sys.stdout.buffer.write(pickle.dumps({"observations": res, "produced": pickle.dumps([build(*s) for s in req["specs"]], req["protocol"])}, 2))
+"""
+
+
+def _child(repo, seed, args, data):
+    import os
+    import subprocess
+    import sys
+    env = dict(os.environ, PYTHONHASHSEED=str(seed), PYTHONPATH=os.path.join(repo, "src"))
+    p = subprocess.run([sys.executable, "-c", CHILD] + [str(a) for a in args], input=data, stdout=subprocess.PIPE, stderr=subprocess.PIPE, env=env, timeout=300)
+    if p.returncode != 0:
+        raise RuntimeError("child interpreter failed: " + p.stderr.decode("utf-8", "replace")[-1500:])
+    return p.stdout
+
+
+def full_observe(a, b):
+    """six operators + hash agreement + set/dict behaviour of the ordered pair"""
+    out = []
+    for f in OPS6:
+        try:
+            out.append(bool(f(a, b)))
+        except Exception as e:  # noqa
+            out.append(type(e).__name__)
+    return out + [hash(a) == hash(b), len({a, b}), (b in {a: 1})]
+
+
+def judge(ctx, case, how, x_fresh, x_y, y_x, f_y, y_f):
+    """x came into being by `how`; fresh is the same text parsed here; y is the partner.  Returns False after reporting."""
+    want_self = [True, False, False, True, False, True, True, 1, True]
+    if x_fresh != want_self:
+        ctx.violation(case, f"{how}: the object is not interchangeable with the same text parsed here: "
+                            f"[==, !=, <, <=, >, >=, hash equal, len(set), dict hit] = {x_fresh}")
+        return False
+    if any(isinstance(v, str) for v in x_y + y_x):
+        if x_y != f_y or y_x != y_f:
+            ctx.violation(case, f"{how}: comparison raises differently than for the freshly parsed object: {x_y} vs {f_y}")
+            return False
+        return True
+    bad = consistent(x_y[:6], y_x[:6], x_y[6])
+    if x_y[0] and (x_y[7] != 1 or not x_y[8]):
+        bad.append("a set keeps both of two equal objects / dict lookup by an equal object misses")
+    if bad:
+        ctx.violation(case, f"{how}: against the partner: " + "; ".join(bad) + f" ({dict(zip(NAMES6, x_y[:6]))}, hash equal={x_y[6]})")
+        return False
+    if x_y != f_y or y_x != y_f:
+        ctx.violation(case, f"{how}: behaves differently from the freshly parsed object against the partner: {x_y} vs {f_y}")
+        return False
+    return True
+
+
+def provenance_checks(ctx, cpvmod, atom, cpv_cases, atom_cases):
+    import copy as _copy
+    import os
+    import pickle
+
+    repo = os.environ.get("VERIF_REPO", "/repo")
+    rows = []      # (kind-for-child, spec_a, spec_b, case)
+    for a, b, rel in cpv_cases[: ctx.n(150, 1500)]:
+        if (a["ver"] is None) != (b["ver"] is None):
+            continue
+        k = "vcpv" if a["ver"] is not None else "ucpv"
+        rows.append(([k, cpv_text(a), False], [k, cpv_text(b), False], {"kind": "cpv", "a": a, "b": b, "text_a": cpv_text(a), "text_b": cpv_text(b), "relation": rel}))
+    for a, b, rel in atom_cases[: ctx.n(260, 3000)]:
+        rows.append((["atom", atom_text(a), a["negate"]], ["atom", atom_text(b), b["negate"]],
+                     {"kind": "atom", "a": a, "b": b, "text_a": atom_text(a), "text_b": atom_text(b), "negate_vers": [a["negate"], b["negate"]], "relation": rel}))
+
+    def build(spec):
+        k, text, neg = spec
+        if k == "atom":
+            return atom(text, negate_vers=neg, disable_inst_caching=True)
+        return cpvmod.VersionedCPV(text) if k == "vcpv" else cpvmod.UnversionedCPV(text)
+
+    ways = [("copy.copy", _copy.copy), ("copy.deepcopy", _copy.deepcopy)]
+    for proto in sorted({0, 2, pickle.HIGHEST_PROTOCOL}):
+        ways.append((f"pickle round trip in this process (protocol {proto})", lambda o, proto=proto: pickle.loads(pickle.dumps(o, proto))))
+    built = []
+    for sa, sb, case in rows:
+        try:
+            built.append((build(sa), build(sa), build(sb)))
+        except Exception as e:
+            ctx.mismatch(case, f"generated object rejected by the constructor: {type(e).__name__}: {e}")
+            built.append(None)
+    # ---- in this process
+    for (sa, sb, case), objs in zip(rows, built):
+        if objs is None:
+            continue
+        orig, fresh, partner = objs
+        f_y, y_f = full_observe(fresh, partner), full_observe(partner, fresh)
+        for how, way in ways:
+            try:
+                x = way(orig)
+            except Exception as e:
+                ctx.violation(case, f"{how} raised {type(e).__name__}: {e}")
+                continue
+            ctx.evaluations += 1
+            ctx.count("provenance_" + how.split(" (")[0].replace(" ", "_"))
+            judge(ctx, case, how, full_observe(x, fresh), full_observe(x, partner), full_observe(partner, x), f_y, y_f)
+    # ---- across interpreters with other string-hash seeds, both directions
+    live = [(r, o) for r, o in zip(rows, built) if o is not None]
+    specs = [r[0] for r, _ in live]
+    own = os.environ.get("PYTHONHASHSEED", "")
+    seeds = [x for x in (1, 2, 3) if str(x) != own][: ctx.n(1, 2)]
+    for seed in seeds:
+        proto = pickle.HIGHEST_PROTOCOL if seed != 2 else 2
+        try:
+            req = {"rows": [(orig, sa, sb) for (sa, sb, _), (orig, _, _) in live], "specs": specs, "protocol": proto}
+            ans = pickle.loads(_child(repo, seed, [], pickle.dumps(req, proto)))
+            loaded = pickle.loads(ans["produced"])
+            res = ans["observations"]
+        except Exception as e:
+            ctx.violation({"kind": "pickle-across-interpreters", "seed": seed},
+                          f"objects cannot be exchanged by pickle with another interpreter: {type(e).__name__}: {e}")
+            continue
+        # produced there, used here
+        how = f"pickle written by another interpreter (PYTHONHASHSEED={seed}, protocol {proto}), loaded here"
+        for ((sa, sb, case), (orig, fresh, partner)), x in zip(live, loaded):
+            ctx.evaluations += 1
+            ctx.count("provenance_pickle_from_other_interpreter")
+            judge(ctx, case, how, full_observe(x, fresh), full_observe(x, partner), full_observe(partner, x),
+                  full_observe(fresh, partner), full_observe(partner, fresh))
+        # produced here, used there
+        how = f"pickle written here, loaded by another interpreter (PYTHONHASHSEED={seed}, protocol {proto})"
+        for ((sa, sb, case), _), (x_f, f_x, x_y, y_x, f_y, y_f) in zip(live, res):
+            ctx.evaluations += 1
+            ctx.count("provenance_pickle_to_other_interpreter")
+            judge(ctx, case, how, x_f, x_y, y_x, f_y, y_f)
+    ctx.extra["provenance_pairs"] = len(live)
+
+
 def run(ctx):
     from pkgcore.ebuild import cpv as cpvmod
     from pkgcore.ebuild.atom import atom
@@ -554,6 +713,8 @@ def run(ctx):
         chunk = objs[lo:lo + 30]
         if len(chunk) >= 3:
             pool_checks(ctx, "cpv", [o for _, o in chunk], [t for t, _ in chunk])
+
+    cpv_cases = cases
 
     # ================================================================ atoms
     cases = [(a, b, "corpus") for a, b in ATOM_CORPUS]
@@ -650,6 +811,12 @@ def run(ctx):
         chunk = objs[lo:lo + 30]
         if len(chunk) >= 3:
             pool_checks(ctx, "atom", [o for _, o in chunk], [t for t, _ in chunk])
+    # ================================================================ objects that did not come out of the constructor
+    import time as _time
+    _t = _time.time()
+    provenance_checks(ctx, cpvmod, atom, cpv_cases, cases)
+    ctx.extra["provenance_phase_s"] = round(_time.time() - _t, 1)
+
     # non-atoms: == is False, != is True, no exception
     x = atom("a/b")
     for other in ("a/b", None, 1, cpvmod.UnversionedCPV("a/b")):
